@@ -30,8 +30,9 @@ def modfile_args():
 
 # per-property configuration: shards (quick, thorough), race build, global budgets in seconds
 CONF = {
+    "C06": {"needs_cli": True}, "C08": {"needs_cli": True}, "C09": {"needs_cli": True}, "C10": {"needs_cli": True},
     "C01": {"fuzz": [("FuzzRoundTrip", 90), ("FuzzText", 90)]},
-    "C02": {"fuzz": [("FuzzNewick", 60), ("FuzzNexus", 60), ("FuzzPhyloXML", 45), ("FuzzNextstrain", 45)]}, "C03": {}, "C04": {}, "C05": {}, "C06": {}, "C07": {}, "C08": {}, "C09": {}, "C10": {},
+    "C02": {"fuzz": [("FuzzNewick", 60), ("FuzzNexus", 60), ("FuzzPhyloXML", 45), ("FuzzNextstrain", 45)]}, "C03": {}, "C04": {}, "C05": {}, "C07": {},
     "C11": {"race": True, "shards": (4, 8)},
     "C12": {}, "C13": {"fuzz": [("FuzzSingleMulti", 120)]}, "C14": {"needs_cli": True}, "C15": {}, "C16": {"needs_cli": True}, "C17": {"needs_cli": True},
     "C18": {"needs_cli": True}, "C19": {"needs_cli": True}, "C20": {"needs_cli": True},
